@@ -5,20 +5,20 @@ for summ in sys.argv[1:]:
     d = json.load(open(summ))
     for name, r in d.items():
         pid, k = name.split("/")
-        src = "/tmp/seed_%s/%s" % (pid, k)
+        src = os.environ.get("SEEDPREFIX", "/tmp/seed_") + "%s/%s" % (pid, k)
         if "error" in r or not (r["tests_pass_with_patch"] and r["demo_rc_with_patch"] != 0 and r["demo_rc_clean"] == 0):
             print("NOT CONFIRMED", name, r)
             continue
-        dst = "/verif/seeded/%s-%s" % (pid, k)
+        dst = "/verif/seeded/%s-%s%s" % (pid, os.environ.get("SEEDTAG", ""), k)
         os.makedirs(dst, exist_ok=True)
         for f in ("patch.diff", "demo.py", "notes.md"):
             if os.path.exists(os.path.join(src, f)):
                 shutil.copy(os.path.join(src, f), os.path.join(dst, f))
         notes = open(os.path.join(src, "notes.md")).read() if os.path.exists(os.path.join(src, "notes.md")) else ""
         meta = {
-            "id": "%s-%s" % (pid, k), "breaks_property": pid, "origin": "independent sub-agent given only the property text and a scratch worktree",
+            "id": "%s-%s%s" % (pid, os.environ.get("SEEDTAG", ""), k), "breaks_property": pid, "origin": "independent sub-agent given only the property text and a scratch worktree",
             "needs_to_manifest": "see notes.md (written by the author of the change)",
-            "confirmed": {"how": "applied in scratch worktree /tmp/wt_%s: full test-suite, demo with the patch, demo on the clean tree" % pid,
+            "confirmed": {"how": "applied in scratch worktree %s%s: full test-suite, demo with the patch, demo on the clean tree" % (os.environ.get("WTPREFIX", "/tmp/wt_"), pid),
                           "tests_with_patch": "330 passed" if r["tests_pass_with_patch"] else "FAILED", "demo_exit_with_patch": r["demo_rc_with_patch"],
                           "demo_exit_clean": r["demo_rc_clean"], "demo_last_line": r.get("demo_tail", "")},
             "what_i_ran": "tools/seedeval.py %s  (git apply patch.diff; /venv/bin/python -m pytest -q -p no:cacheprovider -x; demo.py; ./check <all 20> --root <worktree>; git checkout -- .; demo.py)" % pid,
